@@ -52,6 +52,55 @@ BASE = [
 ]
 
 
+# plain scalars whose content carries YAML indicator characters after a space (the property's
+# space draws strings "to include YAML indicators"); name -> document
+PLAIN = {
+    "plain-dquote-inside": 'a: say "hi" there\n',
+    "plain-squote-inside": "a: it's a 'test' here\n",
+    "plain-lone-dquote": '- x "y\n',
+    "plain-lone-squote": "- x 'y\n",
+    "plain-gt-inside": "a: x > y\n",
+    "plain-pipe-inside": "a: b | c\n",
+    "plain-brackets-inside": "a: see [1] for\n",
+    "plain-braces-inside": "a: x {y} z\n",
+    "plain-open-bracket-inside": "a: x [y\n",
+    "plain-amp-star-inside": "a: x &y *z\n",
+    "plain-amp-inside": "a: x &y z\n",
+    "plain-star-inside": "a: x *y z\n",
+    "plain-bang-inside": "a: x ! y\nb: x !y z\n",
+    "plain-misc-indicators": "a: x % y\nb: x @ y\nc: x ? y\nd: x , y\ne: x ] y\nf: x }y\n",
+    "plain-continuation-dquote": 'a: one\n  "two" x\n',
+    "plain-continuation-bracket": "a: one\n  [two\n",
+    "plain-continuation-pipe": "a: one\n  | two\n",
+    "plain-continuation-dash": "a: one\n  - two\n",
+    "plain-continuation-star-after-deeper-line": "a: one\n    two\n  *three\n",
+    "tagged-quoted": 'a: !!str "q"\nb: !t [1]\nc: !t\n  d: 1\n',
+    "tagged-key-in-seq": "- !t a: b\n- !!str 'k': v\n",
+    "anchored-key-deeper-child": "top:\n  &a k1:\n      deep: 1\n  k2: 2\n",
+    "compact-seq-in-seq-with-map": "- - k: v\n    j: w\n  - z\n",
+    "seq-under-key-same-indent": "- a: 1\n  b:\n  - x\n  - y\n- c\n",
+    "explicit-key-compact-seq": "? a\n: - b\n  - c\n",
+    "compact-map-first-key-nested": "- a:\n    x: 1\n  b: 2\n",
+    "block-scalars-min-indent": "a: |\n b\nc: >-\n d\n",
+    "empty-items": "- \n- a\n-\n  b\n- - - c\n",
+}
+
+
+def long_documents(limit):
+    """Documents that repeat one construct more often than the validator's nesting limit: any
+    per-stream counter that is not restored (depth, frames, anchors) shows up as a rejection."""
+    n = limit + 2
+    yield "long-flow-seq-items", "".join("- [%d, x]\n" % i for i in range(n))
+    yield "long-flow-map-values", "".join("k%d: {a: %d}\n" % (i, i) for i in range(n))
+    yield "long-empty-flow", "".join("k%d: []\n" % i for i in range(n)) + "".join("m%d: {}\n" % i for i in range(n))
+    yield "long-flow-documents", "".join("--- [%d]\n" % i for i in range(n))
+    yield "long-nested-block-siblings", "".join("k%d:\n  a:\n    - b: %d\n" % (i, i) for i in range(n))
+    yield "long-anchors-aliases", "".join("- &a%d v%d\n- *a%d\n" % (i, i, i) for i in range(n))
+    yield "long-quoted", "".join("- \"q %d\"\n- 'r %d'\n" % (i, i) for i in range(n))
+    yield "long-block-scalars", "".join("k%d: |\n  text %d\n" % (i, i) for i in range(n))
+    yield "long-flow-then-nest", "".join("- [%d]\n" % i for i in range(limit // 2)) + "- " + "[" * (limit - 8) + "]" * (limit - 8) + "\n"
+
+
 def variants(doc):
     yield doc
     if "\n" in doc:
@@ -107,19 +156,24 @@ def rule_yaml_validator(progs, tier, name="YAMLVAL"):
         res = RuleResult(name, cfg)
         out.append(res)
         I = Interp(P, max_steps=3000000, max_depth=200)
-        rejected = None
         n_ok = 0
-        docs = []
-        for d in BASE:
-            for v in variants(d):
-                docs.append(v)
+        import hashlib
+
+        named = [("base-" + hashlib.sha1(d.encode()).hexdigest()[:8], d) for d in BASE] + sorted(PLAIN.items())
+        lim = P.consts.get("yaml::validate::MAX_NESTING_DEPTH")
+        if lim is None or "v" not in lim:
+            res.bad("%s:anchor" % name, "constant yaml::validate::MAX_NESTING_DEPTH not found (fail closed)")
+            continue
+        named += list(long_documents(lim["v"]))
+        rejected = {}
         try:
-            for doc in docs:
-                data = doc.encode("utf-8")
-                r = run(I, P, data)
-                n_ok += 1
-                if r[0] != "ok" and rejected is None:
-                    rejected = (doc, r)
+            for dname, d in named:
+                for doc in (variants(d) if not dname.startswith("long-") else [d]):
+                    data = doc.encode("utf-8")
+                    r = run(I, P, data)
+                    n_ok += 1
+                    if r[0] != "ok" and dname not in rejected:
+                        rejected[dname] = (doc, r)
         except Panic as e:
             res.bad("%s:panic" % name, "validator panics on a well-formed document %r: %s" % (doc[:60], e))
             continue
@@ -128,10 +182,9 @@ def rule_yaml_validator(progs, tier, name="YAMLVAL"):
             continue
         res.cells += n_ok
         res.engines += 1
-        if rejected:
-            res.bad("%s:rejects-wellformed" % name, "validator rejects the well-formed document %r with %s at offset %d" % (rejected[0][:80], rejected[1][4], rejected[1][1]))
-        else:
-            res.ok({"well_formed_documents_accepted": n_ok})
+        for dname, (doc, r) in sorted(rejected.items()):
+            res.bad("%s:rejects:%s" % (name, dname), "validator rejects the well-formed document %r with %s at offset %d" % (doc[:80], r[4], r[1]))
+        res.ok({"well_formed_documents_accepted": n_ok - len(rejected), "documents": len(named), "nesting_limit": lim["v"]})
         # mutations: termination, no panic, positioned errors
         bad = None
         n_mut = 0
